@@ -33,8 +33,21 @@ fn styles() -> Vec<Style> {
 
 const TRAILERS: [&[u8]; 4] = [&[], &[0x00], &[0xff], &[0x82, 0x81]];
 
-fn check_style(st: &Style, lens: &[usize], acc: &mut Acc) {
+/// lengths of trailing data tried behind every prefix (besides the short trailers): around every
+/// multiple of 256 up to 1 KiB, so that buffer sizes hit every residue class a narrowed
+/// comparison could single out
+fn long_trailers() -> Vec<usize> {
+    let mut v: Vec<usize> = vec![3, 4, 5, 126, 127, 128, 129];
+    for k in [256usize, 512, 768, 1024] {
+        v.extend(k - 4..=k + 3);
+    }
+    v
+}
+
+fn check_style(st: &Style, lens: &[usize], thorough: bool, acc: &mut Acc) {
     let mut prefixes: HashSet<Vec<u8>> = HashSet::new();
+    let mut big: Vec<u8> = (0..70_000usize).map(|i| (i * 7 + 3) as u8).collect();
+    let longs = long_trailers();
     for &n in lens {
         acc.count("cases", 1);
         let key = format!("c16/{}/n={n}", st.name);
@@ -86,6 +99,32 @@ fn check_style(st: &Style, lens: &[usize], acc: &mut Acc) {
                     format!("{}::deserialize({}) panicked: {p}", st.name, hex(&input)),
                     n as u64,
                 )),
+            }
+        }
+        // long trailing data: the prefix followed by t bytes, and by exactly n bytes (its own payload)
+        {
+            let pl = got.len();
+            big[..pl].copy_from_slice(&got);
+            let mut ts: Vec<usize> = longs.clone();
+            if thorough || n <= 2100 || n % 97 == 0 {
+                ts.push(n);
+            }
+            for t in ts {
+                acc.count("calls", 1);
+                acc.count("long_trailer_cases", 1);
+                let input = &big[..pl + t];
+                match guarded(|| (st.de)(input)) {
+                    Ok(Ok((len, rest))) if len == n && rest == t => {}
+                    other => acc.violation(viol(
+                        format!("{key}/trailing={t}"),
+                        format!("{}::deserialize(prefix {} followed by {t} bytes of data) = {other:?}, expected (len {n}, remainder of {t} bytes)", st.name, hex(&got)),
+                        n as u64,
+                    )),
+                }
+            }
+            // restore the pattern under the prefix
+            for (i, b) in big[..pl].iter_mut().enumerate() {
+                *b = (i * 7 + 3) as u8;
             }
         }
         // every strict prefix of the emitted prefix (incl. empty input) is an error
@@ -285,7 +324,7 @@ pub fn run(run: &RunInfo) -> Summary {
                 let lo = arg * 4096;
                 let hi = ((arg + 1) * 4096).min(st.max + 1);
                 let lens: Vec<usize> = (lo..hi).collect();
-                check_style(st, &lens, acc);
+                check_style(st, &lens, thorough, acc);
             }
             1 => check_strings(&sts[si], arg as u8, thorough, acc),
             _ => {
@@ -336,7 +375,7 @@ pub fn run(run: &RunInfo) -> Summary {
         transitions: calls,
         traces_validated: cases,
         distinct_nontrivial: acc.set_len("prefixes") + acc.get("defined_agree"),
-        rule: "every representable length of Tlv/Adpu (0..=65535), Llv (0..=99), Lllv (0..=999) and every (N, len<=N) of Fixed<1..=17>, each with 4 trailers and every truncation of its prefix; every byte string of length 0..2 (thorough: ..3; quick: length 3 for the first bytes 7f,80..83,f0..f9,fe,ff) through every parser. distinct_nontrivial = distinct (style, emitted prefix) pairs + parser inputs on which the format defines the result".into(),
+        rule: "every representable length of Tlv/Adpu (0..=65535), Llv (0..=99), Lllv (0..=999) and every (N, len<=N) of Fixed<1..=17>, each with 4 short trailers, 39 trailing-data lengths around 128 and every multiple of 256 up to 1 KiB, its own payload length (quick: for n <= 2100 and every 97th n), and every truncation of its prefix; every byte string of length 0..2 (thorough: ..3; quick: length 3 for the first bytes 7f,80..83,f0..f9,fe,ff) through every parser. distinct_nontrivial = distinct (style, emitted prefix) pairs + parser inputs on which the format defines the result".into(),
         exhaustive: true,
         required_witnesses: vec!["parser agreed with the format on defined prefixes".into(), "truncated prefixes rejected".into()],
         assumptions: vec![
